@@ -307,9 +307,9 @@ PROPERTY = {
     ),
     "assumptions": ["LFR labels are restricted to what it accepts as matrix indices (ints, bools)"],
     "subchecks": [
-        SubCheck("relabel", check_relabel, strategy=strat_relabel, nontrivial=lambda L: "nontrivial" in L, quick=900, thorough=20000, shards_quick=8),
-        SubCheck("lfr_cells", check_lfr_cells, strategy=strat_lfr, nontrivial=lambda L: "nontrivial" in L, quick=150, thorough=3000, shards_quick=4),
-        SubCheck("unused_args", check_unused, strategy=strat_unused, nontrivial=lambda L: "nontrivial" in L, quick=600, thorough=12000, shards_quick=8,
+        SubCheck("relabel", check_relabel, strategy=strat_relabel, nontrivial=lambda L: "nontrivial" in L, quick=900, thorough=60000, shards_quick=8),
+        SubCheck("lfr_cells", check_lfr_cells, strategy=strat_lfr, nontrivial=lambda L: "nontrivial" in L, quick=150, thorough=9000, shards_quick=4),
+        SubCheck("unused_args", check_unused, strategy=strat_unused, nontrivial=lambda L: "nontrivial" in L, quick=600, thorough=36000, shards_quick=8,
                  describe=lambda c: {"det": c["det"], "params": c["params"], "junk": c["junk"][:6], "n_calls": len(c["items"])}),
     ],
 }
